@@ -24,8 +24,8 @@ RULE = ("one evaluation = one (tree, output state, fault assignment, order, feat
         "anonymize_files in a sandbox with full before/after snapshots; distinct_nontrivial = "
         "distinct runs with at least one fault, or with at least two files; bounded by the number "
         "of simultaneous faults and of non-default dimensions")
-ASSUMPTIONS = ["fault kinds: undecodable bytes, output path occupied by a directory, output parent "
-               "occupied by a file; permissions/symlinks/in==out outside the alphabet (runs as root)",
+ASSUMPTIONS = ["fault kinds: undecodable bytes (early / after 8 KiB of processed lines), dangling symlink as "
+               "input, output path occupied by a directory, output parent occupied by a file; permissions/symlinks/in==out outside the alphabet (runs as root)",
                "a directory that mirrors an input directory is tolerated in the output",
                "a failed file's own output path may be absent or empty"]
 
@@ -45,7 +45,7 @@ BAD_BYTES = b"hostname x\n\xff\xfe bad \x80\x81 bytes 10.1.2.3\npassword zzz\n"
 BAD_LATE = (b"".join(b"password lateSecret%d\n peer 138.7.6.%d\n" % (i, i % 250) for i in range(40))
             + b"! filler line to get past read-ahead buffers ......................................\n" * 400
             + b"password zzz \xff\xfe\x80 tail\nhostname end\n")
-FAULTS = ["undecodable", "undecodable-late", "outpath-is-dir", "outparent-is-file"]
+FAULTS = ["undecodable", "undecodable-late", "outpath-is-dir", "outparent-is-file", "dangling-symlink"]
 ORDERS = ["sorted", "reversed", "rotated"]
 OUTSTATES = ["absent", "empty-dir", "stale-file"]
 FEATURES = ["ip", "pwd+ip"]
@@ -101,6 +101,10 @@ def setup(root, tree, faults, outstate):
             files[e] = CONTENT[e]
     os.makedirs(ind)
     seams.write_tree(ind, files)
+    for e, kd in faults.items():
+        if kd == "dangling-symlink":
+            os.unlink(os.path.join(ind, e))
+            os.symlink(os.path.join(root, "no-such-target"), os.path.join(ind, e))
     if outstate != "absent":
         os.makedirs(outd)
     if outstate == "stale-file":
